@@ -421,11 +421,28 @@ template<typename S>
 auto req_compactor<T, C, A>::deserialize_items(std::istream& is, const S& serde, const A& allocator, uint32_t num)
 -> std::unique_ptr<T, items_deleter> {
   A alloc(allocator);
-  std::unique_ptr<T, items_deleter> items(alloc.allocate(num), items_deleter(allocator, false, num));
-  serde.deserialize(is, items.get(), num);
-  // serde did not throw, enable destructors
-  items.get_deleter().set_destroy(true);
-  if (!is.good()) throw std::runtime_error("error reading from std::istream");
+  // num came from the stream and cannot be trusted: the items are read in chunks into a buffer that at most
+  // doubles per step (and ends with capacity num), so a count that is not backed by the stream ends in a read
+  // error instead of one huge allocation
+  const uint32_t min_step = 1 << 12;
+  uint32_t capacity = std::min(num, min_step);
+  std::unique_ptr<T, items_deleter> items(alloc.allocate(capacity), items_deleter(allocator, false, capacity));
+  uint32_t count = 0;
+  while (true) {
+    serde.deserialize(is, items.get() + count, capacity - count);
+    // serde did not throw, enable destructors for everything read so far
+    count = capacity;
+    items.get_deleter().set_constructed(count);
+    if (!is.good()) throw std::runtime_error("error reading from std::istream");
+    if (count == num) break;
+    capacity = static_cast<uint32_t>(std::min<uint64_t>(num, 2 * static_cast<uint64_t>(capacity)));
+    std::unique_ptr<T, items_deleter> bigger(alloc.allocate(capacity), items_deleter(allocator, false, capacity));
+    for (uint32_t i = 0; i < count; ++i) {
+      new (bigger.get() + i) T(std::move(items.get()[i]));
+      bigger.get_deleter().set_constructed(i + 1);
+    }
+    items = std::move(bigger);
+  }
   return items;
 }
 
@@ -511,21 +528,21 @@ items_(items.release())
 template<typename T, typename C, typename A>
 class req_compactor<T, C, A>::items_deleter {
   public:
-  items_deleter(const A& allocator, bool destroy, size_t num): allocator_(allocator), destroy_(destroy), num_(num) {}
+  items_deleter(const A& allocator, bool destroy, size_t num): allocator_(allocator), num_constructed_(destroy ? num : 0), num_(num) {}
   void operator() (T* ptr) {
     if (ptr != nullptr) {
-      if (destroy_) {
-        for (size_t i = 0; i < num_; ++i) {
-          ptr[i].~T();
-        }
+      for (size_t i = 0; i < num_constructed_; ++i) {
+        ptr[i].~T();
       }
       allocator_.deallocate(ptr, num_);
     }
   }
-  void set_destroy(bool destroy) { destroy_ = destroy; }
+  void set_destroy(bool destroy) { num_constructed_ = destroy ? num_ : 0; }
+  // only the first num items of the buffer have been constructed so far
+  void set_constructed(size_t num) { num_constructed_ = num; }
   private:
   A allocator_;
-  bool destroy_;
+  size_t num_constructed_;
   size_t num_;
 };
 
